@@ -228,7 +228,10 @@ mod sh {
         RUN.with(|r| r.borrow_mut().events.push((me, kind, arg)));
         // events that are not a step of the model (per-unit result, thread exit, loop left by break)
         // do not advance a step-indexed script
-        let meta = matches!(kind, 48 | 49 | 56) || (kind == 59 && arg == 1);
+        // (the spawn of the first worker inside new(), before any call of the caller, is no model step either)
+        let in_new = kind == 22 && NSTEPS.with(|n| n.get()) == 0 && me == 0;
+        // (45 is emitted before condvar.wait(): the step it announces completes without an event)
+        let meta = matches!(kind, 45 | 48 | 49 | 56) || (kind == 59 && arg == 1) || in_new;
         NSTEPS.with(|n| n.set(n.get() + if meta { 0 } else { 1 }));
         NEVENTS.with(|n| n.set(n.get() + 1));
         if kind == 56 {
@@ -673,6 +676,9 @@ mod sh {
         let script: Vec<usize> = if a[5] == "-" { vec![] } else { a[5].split(',').map(|x| x.parse().unwrap()).collect() };
         let sched = ScriptSched { script, started: false, per_step: true, pos: 0 };
         let run = run_once(sched, kind, workers, input, dropa);
+        if std::env::var("MT_DEBUG").is_ok() {
+            eprintln!("events: {}", trace_string(&run.events));
+        }
         (outcome_string(kind, &run), oracle(kind, input, dropa, &run))
     }
 
@@ -917,6 +923,10 @@ mod real {
     pub fn exec_real(a: &[&str]) -> (String, String) {
         let (kind, workers, input, dropa) = (a[1].to_string(), a[2].parse::<u32>().unwrap(), a[3].to_string(), a[4].to_string());
         let repeat: usize = a[5].parse().unwrap();
+        // the census counts the threads of the whole process: one scenario at a time
+        static ONE_AT_A_TIME: std::sync::Mutex<()> = std::sync::Mutex::new(());
+        let _guard = ONE_AT_A_TIME.lock().unwrap_or_else(|e| e.into_inner());
+        std::thread::sleep(Duration::from_millis(50));
         let before = tasks();
         let mut outcomes = std::collections::BTreeMap::new();
         let mut max_threads = 0usize;
